@@ -67,6 +67,8 @@ type Obs struct {
 	ByCall    map[string][]*Fork
 	fileDirs  []fileDir // canonical files dir -> token
 	tokByPath map[string]string // uniquifier-stripped written path -> content token
+	vdrRoots  []string          // roots removed by VDR (hook trace), loaded lazily
+	vdrLoaded bool
 	CallPaths []string
 }
 
@@ -149,6 +151,9 @@ func Collect(c *vrun.Case, callPaths []string) *Obs {
 			for _, w := range e.Written {
 				if w.Tok != "" {
 					o.tokByPath[vrun.StripUniq(w.Path)] = w.Tok
+					if w.Path != vrun.StripUniq(w.Path) {
+						o.tokByPath[w.Path] = w.Tok
+					}
 				}
 			}
 		}
@@ -334,4 +339,29 @@ func StageCallPaths(p *pgen.Program) []string {
 		walk(top, top.Name)
 	}
 	return out
+}
+
+// RemovedByVDR reports whether the hook trace shows a VDR removal covering
+// a file with the given content token.
+func (o *Obs) RemovedByVDR(tok string) bool {
+	if !o.vdrLoaded {
+		o.vdrLoaded = true
+		for _, t := range o.Case.Trace() {
+			if strings.HasPrefix(t.Name, "vdr:remove") && len(t.Detail) > 0 {
+				o.vdrRoots = append(o.vdrRoots, t.Detail[0])
+			}
+		}
+	}
+	for p, t := range o.tokByPath {
+		if t != tok {
+			continue
+		}
+		for _, root := range o.vdrRoots {
+			rs := vrun.StripUniq(root)
+			if p == root || p == rs || strings.HasPrefix(p, root+"/") || strings.HasPrefix(p, rs+"/") {
+				return true
+			}
+		}
+	}
+	return false
 }
